@@ -25,7 +25,7 @@ ASSUMPTIONS = [
 ]
 
 ACTS = ["float", "qint8", "qfloat8_e4m3fn", "qfloat8_e5m2"]
-FAMILIES = ["exact", "saturating", "onehot", "generic"]
+FAMILIES = ["exact", "saturating", "onehot", "generic", "large"]
 _counts = {}
 
 
@@ -118,9 +118,12 @@ def _act(kind, shape, dt, family, phase):
     else:
         codes = None
         scale = None
-    if family == "generic":
+    if family in ("generic", "large"):
         i = torch.arange(n, dtype=torch.float64).reshape(shape)
         vals = torch.sin(i * 0.37 + phase) * (1.0 + (i % 7) * 0.5)
+        if family == "large":
+            # large activations (outliers): un-scaled codes times activations overflow float16 unless accumulated in float32
+            vals = vals * 600.0
         if kind == "float":
             x = vals.to(dt)
             return x, x.to(torch.float64), None, None
@@ -149,9 +152,11 @@ def _weight(wkind, N, K, dt, family, phase):
     gs = int(wkind.split("_g")[1]) if "_g" in wkind else None
     pt = wkind.endswith("_pt")
     qt = num.qt(base)
-    if family == "generic":
+    if family in ("generic", "large"):
         i = torch.arange(N * K, dtype=torch.float64).reshape(N, K)
         vals = torch.cos(i * 0.23 + phase) * (0.5 + (i // K) * 0.37)  # rows have different ranges
+        if family == "large":
+            vals = vals * 0.02
         if qt.bits == 8:
             if pt:
                 from optimum.quanto import quantize_activation
@@ -283,7 +288,7 @@ def _linear_task(task, out):
     phase = task.get("seed", 0) % 5
     for wkind in _wkinds(K):
         for family in FAMILIES:
-            fam_phase = phase if family == "generic" else 0
+            fam_phase = phase if family in ("generic", "large") else 0
             w, w64 = _weight(wkind, N, K, dt, family, fam_phase)
             for akind in ACTS:
                 for rows in rows_list:
